@@ -62,6 +62,17 @@ PROPS['C07'] = dict(
     level_note='Assumed: listify_array_value, key normalisation and option lookup (trusted contracts); int() of a string through the abstract py_int_ok/py_int_val; mlog calls are effects. NOT proved (bounded only): initialize_from_top_level_project_call / initialize_from_subproject_call, set_option incl. buildtype and prefix dependents.',
     not_decided=['machine-file parsing, optinterpreter and Environment plumbing', 'cross-source interaction of buildtype with explicit debug/optimization (not stated)'],
 )
+PROPS['C14'] = dict(
+    modules=['specs.conf', 'contracts.conf'],
+    bounded=['bounded.conf'],
+    level='other',
+    design_ref='DESIGN.md §4 C14',
+    technique='deductive: VCs from the real AST of the meson-format substitution callback, do_replacement_meson (single re.sub pass as a ghost-trace fact) and do_define_meson against the documented rendering; regular-expression recognition and the generated header bounded-exhaustive against an independent single-pass scanner',
+    level_text='Proved for all matches / values: the callback renders strings verbatim, integers and booleans through str(), halves backslash runs, unescapes \\@name\\@, reports undefined names; do_replacement_meson performs exactly one re.sub pass and returns its result unchanged (never scanned again); #mesondefine renders unset/bool/int values as documented. Which text the regular expression matches is decided bounded: all templates of <= 5 (quick) / 6 (thorough) symbols x 3 configurations.',
+    level_note='Assumed: re.sub applies the callback once per non-overlapping match left to right; abstract match objects (group languages and top-level alternation facts from the real pattern); str.split/strip uninterpreted. cmake formats, do_conf_str line loops and _dump_c_header are bounded only. Known finding: #mesondefine string values are scanned again.',
+    explanation='kernel clauses proved: substitution callback rendering, single-pass, #mesondefine rendering; regex recognition / cmake formats / line loop / generated header: bounded stand-in',
+    not_decided=['cmake ${VAR} / #cmakedefine scanner (index loop with in-place mutation)', 'every other byte copied unchanged: follows from re.sub semantics (assumed) and the bounded scanner comparison'],
+)
 
 # properties with no check yet or outside the technique, each with the reason
 NOT_APPLICABLE = {
